@@ -1,0 +1,27 @@
+//go:build verif
+
+// Verification hooks for property C11 (graceful shutdown). Add-only; compiled
+// only with -tags verif. Nothing here is called from production code.
+
+package martian
+
+// VerifC11Counter returns the open-connection counter Shutdown waits on.
+func (p *Proxy) VerifC11Counter() int32 {
+	p.init()
+	return p.connsWg.Load()
+}
+
+// VerifC11Closing reports whether the closing signal has been set.
+func (p *Proxy) VerifC11Closing() bool {
+	p.init()
+	return p.closing()
+}
+
+// VerifC11Registered returns the size of the open-connection set.
+// It takes connsMu and therefore blocks while Shutdown or Close runs.
+func (p *Proxy) VerifC11Registered() int {
+	p.init()
+	p.connsMu.Lock()
+	defer p.connsMu.Unlock()
+	return len(p.conns)
+}
